@@ -103,6 +103,12 @@ func (c *checkSchema) checkType(name string, typ ischema.Type, ss map[string]isc
 		panic(errs.ErrRuntimeFailure.F())
 	}()
 
+	if typ.Schema.RootNode() == nil {
+		// A type without any value (an empty text, only comments): there is
+		// nothing a reference to it could stand for.
+		panic(kit.NewJSchemaError(typ.RootFile, errs.ErrEmptyType.F(name)))
+	}
+
 	c.checkNode(typ.Schema.RootNode(), ss)
 }
 
